@@ -60,9 +60,11 @@ VR_PCMP(lt, <) VR_PCMP(le, <=) VR_PCMP(gt, >) VR_PCMP(ge, >=)
 #ifdef __CPROVER__
 /* strlen with a registry of strings whose length the harness knows concretely (keeps allocation sizes concrete) */
 uint64_t vr_strlen(const char* s);
+int vr_strcmp(const char* a, const char* b);
 void vr_register_string(const char* s, uint64_t len);
 #else
 #define vr_strlen(s) strlen(s)
+#define vr_strcmp(a, b) strcmp((a), (b))
 #define vr_register_string(s, n) ((void)0)
 #endif
 #ifdef __CPROVER__
